@@ -141,10 +141,49 @@ func (m *Meta) Add(key string, val any) error {
 	if err != nil {
 		return err
 	}
+	if err := checkIntegersFitInt64(node); err != nil {
+		return err
+	}
 
 	m.Keys = append(m.Keys, key)
 	m.Values[key] = node
 
+	return nil
+}
+
+// checkIntegersFitInt64 rejects IPLD values holding an integer that cannot be
+// represented as an int64 (an unsigned node above math.MaxInt64): such a value
+// cannot be read back with GetInt64 and cannot be encoded as DAG-JSON, so a
+// token carrying it could be built but not sealed in every codec.
+func checkIntegersFitInt64(node ipld.Node) error {
+	switch node.Kind() {
+	case ipld.Kind_Int:
+		if _, err := node.AsInt(); err != nil {
+			return fmt.Errorf("integer value does not fit in an int64: %w", err)
+		}
+	case ipld.Kind_List:
+		it := node.ListIterator()
+		for !it.Done() {
+			_, v, err := it.Next()
+			if err != nil {
+				return err
+			}
+			if err := checkIntegersFitInt64(v); err != nil {
+				return err
+			}
+		}
+	case ipld.Kind_Map:
+		it := node.MapIterator()
+		for !it.Done() {
+			_, v, err := it.Next()
+			if err != nil {
+				return err
+			}
+			if err := checkIntegersFitInt64(v); err != nil {
+				return err
+			}
+		}
+	}
 	return nil
 }
 
